@@ -69,6 +69,13 @@ def run_programs(prop, conf, tier, seed, shard, nshards, budget, col, maxprog=No
     pidx = int(prop[1:])
     t0 = time.time()
     prog = 0
+    if conf.get("oracles_extra") == "continuation" and not conf.get("_cont_added"):
+        # C05: "every continuation of the program after the measurement": the operations, channels and structural
+        # calls that follow a measurement are judged too (the survivors must remain fully usable)
+        from pwv.drivers_misc import continuation_oracle
+        conf = dict(conf)
+        conf["oracles"] = list(conf["oracles"]) + [continuation_oracle(prop, lambda rec: rec.step["k"] == "measure" and not rec.step.get("dead_probe"), 3)]
+        conf["_cont_added"] = True
     nsteps_rng = conf.get("steps", (4, 12) if tier == "quick" else (6, 20))
     while time.time() - t0 < budget and (maxprog is None or prog < maxprog):
         rng = np.random.default_rng([seed, pidx, shard, prog])
